@@ -24,6 +24,8 @@ pub enum Call {
     /// several values into one stream (string ids must restart with every call)
     Stream(Vec<(Ty, vmodel::Val)>),
     Graph(crate::props::graphs::Graph),
+    /// a compressed block of `len` bytes (period `period`) written at `level`, then read back
+    Zip { len: usize, period: u8, level: u32 },
 }
 
 const POOL: usize = 200;
@@ -107,7 +109,8 @@ pub fn pool(seed: u64) -> Vec<Call> {
             Call::Dec { ty: tr.clone(), bytes }
         })
     });
-    let strat = prop_oneof![4 => enc, 4 => dec, 2 => stream, 1 => graph, 6 => fam];
+    let zip = (prop_oneof![Just(0usize), 1usize..40, 200usize..3000, Just(40_000usize)], 1u8..200, 0u32..10).prop_map(|(len, period, level)| Call::Zip { len, period, level });
+    let strat = prop_oneof![4 => enc, 4 => dec, 2 => stream, 1 => graph, 6 => fam, 2 => zip];
     let mut r = runner(tag_seed(derive_seed(seed, "C18-pool", 0, 0), 0));
     (0..POOL).map(|_| strat.new_tree(&mut r).expect("pool").current()).collect()
 }
@@ -155,8 +158,20 @@ pub fn execute(c: &Call) -> String {
                 Err(e) => format!("stream-err {}", e.kind),
             }
         }
+        Call::Zip { len, period, level } => {
+            use desert::{BinaryInput, BinaryOutput};
+            let d: Vec<u8> = (0..*len).map(|i| (i % *period as usize) as u8 ^ (i / 251) as u8).collect();
+            let mut out = Vec::new();
+            match out.write_compressed(&d, flate2::Compression::new(*level)) {
+                Ok(()) => {
+                    let back = desert::SliceInput::new(&out).read_compressed();
+                    format!("zip {:016x} len={} back={}", fnv64(&out), out.len(), matches!(back, Ok(b) if b == d))
+                }
+                Err(e) => format!("zip-err {}", vcat::errinfo(&e).kind),
+            }
+        }
         Call::Graph(g) => {
-            let case = crate::props::graphs::GraphCase { g: g.clone(), tracked_header: g.labels.len() % 2 == 0, fault_sel: 3, fault_kind: 0 };
+            let case = crate::props::graphs::GraphCase { g: g.clone(), tracked_header: g.labels.len() % 2 == 0, tagged: g.labels.len() % 3 == 0, fault_sel: 3, fault_kind: 0 };
             match crate::props::graphs::check_graph(&case, &mut Acc::new(), false) {
                 Verdict::Fail(e) => format!("graph-fail {e}"),
                 _ => "graph-ok".to_string(),
@@ -458,6 +473,7 @@ fn call_brief(c: &Call) -> String {
         Call::Dec { ty, bytes } => format!("decode {} from {}", ty.render(), vmodel::hex(&bytes[..bytes.len().min(24)])),
         Call::Stream(items) => format!("stream of {} values", items.len()),
         Call::Graph(g) => format!("graph of {} nodes", g.labels.len()),
+        Call::Zip { len, period, level } => format!("compressed block of {len} bytes (period {period}) at level {level}"),
     }
 }
 
